@@ -34,6 +34,7 @@ type loopDesc struct {
 	hidden    *types.Var
 	keyObj    types.Object // range key declared by the loop (alias of the hidden counter)
 	extraMods []types.Object
+	ghostHeap []string
 }
 
 type modSet struct {
@@ -181,6 +182,11 @@ func mapHeapKey(m *types.Map) string {
 // havoc builds the loop-head state from the pre-state.
 func (fx *FuncCtx) havoc(pre *State, ms *modSet, lf *loopFrame, bodyDefs map[types.Object]ast.Expr) *State {
 	h := pre.clone()
+	if pre.allocTop.S != "" {
+		// earlier iterations may have allocated objects
+		h.allocTop = fx.freshConst(fmt.Sprintf("alloctop@L%d", lf.ord), SInt)
+		h.assume(Ge(h.allocTop, pre.allocTop))
+	}
 	objs := make([]types.Object, 0, len(ms.vars))
 	for o := range ms.vars {
 		if _, ok := pre.vars[o]; ok {
@@ -199,6 +205,7 @@ func (fx *FuncCtx) havoc(pre *State, ms *modSet, lf *loopFrame, bodyDefs map[typ
 		}
 		v, facts := fx.freshVal(fmt.Sprintf("%s@L%d", o.Name(), lf.ord), o.Type())
 		// slices keep being slices of some region; nothing else is known
+		fx.refFacts(h, v)
 		h.vars[o] = v
 		for _, f := range facts {
 			h.assume(f)
@@ -259,7 +266,7 @@ func (fx *FuncCtx) havoc(pre *State, ms *modSet, lf *loopFrame, bodyDefs map[typ
 	for _, k := range sortedKeys(pre.heap) {
 		hit := ms.heapAll && (strings.HasPrefix(k, "H_") || strings.HasPrefix(k, "M_") || strings.HasPrefix(k, "S_"))
 		for _, p := range hk {
-			if k == p || strings.HasPrefix(k, p+".") || strings.HasPrefix(k, p+"#") {
+			if k == p || strings.HasPrefix(k, p+".") || strings.HasPrefix(k, p+"$") {
 				hit = true
 			}
 		}
@@ -742,10 +749,16 @@ func (fx *FuncCtx) execLoop(pre *State, ld *loopDesc) Flow {
 	if ld.keyObj != nil {
 		ms.vars[ld.keyObj] = true
 	}
+	for _, g := range ld.ghostHeap {
+		ms.heap[g] = true
+	}
 	bodyDefs := fx.bodyDefinitions(ld.body)
 
 	it := Term{fmt.Sprintf("it@L%d%s", ord, fx.inlineSuffix()), SInt}
 	lf := &loopFrame{ord: ord, it: it, label: ld.label, memHavoc: map[string][]string{}, pre: pre}
+	if len(ld.ghostHeap) > 0 {
+		lf.seenName = ld.ghostHeap[0]
+	}
 
 	// --- candidates ---------------------------------------------------------
 	var cands []cand
